@@ -282,7 +282,65 @@ def rule_r4(repo):
     return rr
 
 
+def rule_r6(repo):
+    """SectionConfigurer.__init__ and get_configuration folded on the bundled definition files: a message of edition e is laid out by
+    the file written for section i and edition e when there is one, otherwise by the section's default file - for every section and
+    editions 1..5, a message that does not know its edition yet, and edition 0."""
+    import os
+    from sa.patheval import Stub, ModRef
+    rr = RuleResult('C17.R6', 'every section of every edition is read with the layout file written for it (SectionConfigurer folded on the bundled definitions)')
+    init = repo.own_method('SectionConfigurer', '__init__')
+    getc = repo.own_method('SectionConfigurer', 'get_configuration')
+    L = repo.layouts
+    by_file = dict((os.path.basename(v['__file__']), v) for v in L.values())
+    listing = sorted(by_file) + ['README.txt', 'sections.json.bak', 'other.json']
+
+    class I(Interp):
+        def on_call(self, text, callee, args, kwargs, node, frame):
+            if text == 'os.listdir':
+                return list(listing)
+            if text == 'os.path.join':
+                return '/'.join(str(a) for a in args)
+            if text == 'open':
+                name = str(args[0]).split('/')[-1]
+                return Stub('file', attrs={'name': name})
+            if text == 'json.load':
+                f = args[0]
+                name = f.attrs.get('name') if isinstance(f, Stub) else None
+                if name not in by_file:
+                    raise AnalysisError('SectionConfigurer.__init__ opens %r, which is not a section layout file' % (name,))
+                return by_file[name]
+            if text.startswith('log.'):
+                return None
+            return self.NOT_HANDLED
+    it = I(repo, 'SectionConfigurer')
+    res = it.run_function(init, lambda: {'self': Obj('SectionConfigurer', {}), 'definitions_dir': '/defs'}, self_class='SectionConfigurer')
+    oks = [r for r in res if r.ok]
+    if len(oks) != 1:
+        raise AnalysisError('SectionConfigurer.__init__ does not fold to one path: %s' % [r.describe() for r in res])
+    conf = oks[0].locals['self']
+    n = 0
+    for idx in repo.section_indices():
+        for ed in (None, 0, 1, 2, 3, 4, 5):
+            want = repo.layout(idx, ed if ed else None)
+            msg = Obj('BufrMessage', {'edition': None if ed is None else Obj('SectionParameter', {'name': 'edition', 'value': ed})})
+            res = it.run_function(getc, lambda: {'self': conf, 'bufr_message': msg, 'section_index': idx}, self_class='SectionConfigurer')
+            n += 1
+            for r in res:
+                got = r.value if r.ok else None
+                if not r.ok or got is not want:
+                    rr.fail('layout-selection:section%d' % idx, getc.where, 'section %d of a message of edition %s is read with %s; expected %s (the file for that '
+                            'edition, else the default of the section)' % (idx, 'unknown yet' if ed is None else ed,
+                                                                           got.get('__file__') if isinstance(got, dict) else (r.describe() if not r.ok else repr(got)[:80]), want['__file__']),
+                            witness={'section': idx, 'edition': ed})
+        rr.instance('section %d: editions unknown, 0..5' % idx)
+    rr.extra = {'selections_folded': n}
+    rr.require_floor(5)
+    return rr
+
+
 def run(repo, check):
+    check.run_rule(rule_r6, repo)
     check.run_rule(rule_r1, repo)
     check.run_rule(rule_r2, repo)
     if check.tier == 'thorough':
